@@ -366,11 +366,11 @@ class HTMLParser(object):
                 nodeName = self.innerHTML
             # Check for conditions that should only happen in the innerHTML
             # case
-            if nodeName in ("select", "colgroup", "head", "html"):
-                assert self.innerHTML
-
             if not last and node.namespace != self.tree.defaultNamespace:
                 continue
+
+            if nodeName in ("select", "colgroup", "head", "html"):
+                assert self.innerHTML
 
             if nodeName in newModes:
                 new_phase = self.phases[newModes[nodeName]]
